@@ -45,3 +45,101 @@ class Point:
 
     def __repr__(self):
         return f'Point({self.x!r}, {self.y!r})'
+
+
+# ---------------------------------------------------------------------------
+# INJECT scenarios (line events in this file are landing points too)
+# ---------------------------------------------------------------------------
+
+def quick_return(v):
+    r = ('ok', v)
+    return r
+
+
+def raise_own(a, b):
+    e = ValueError('own', a, b)
+    raise e
+
+
+def loop_finally(marker, rounds=3):
+    """Python loop inside try/finally; the finally block records which thread ran it."""
+    try:                                        # LF_TRY_BEGIN
+        i = 0
+        while i < rounds:
+            i += 1
+            x = i * 2
+        r = ('done', i)                         # LF_TRY_END
+    finally:
+        with open(marker, 'w') as f:
+            f.write('%d %d %d' % (os.getpid(), threading.get_ident(), threading.get_native_id()))
+    return r
+
+
+def echo_item(x):
+    y = ('r', x)
+    return y
+
+
+def item_or_raise(x):
+    if x == 'POISON':
+        raise ValueError('poison item')
+    y = ('r', x)
+    return y
+
+
+def swallow_everything(marker=None):
+    """uncooperative target: keeps running whatever exception is thrown at it"""
+    while True:
+        try:
+            while True:
+                time.sleep(0.01)
+        except BaseException:
+            continue
+
+
+def sleep_forever():
+    time.sleep(100000)
+
+
+def hold_gil():
+    return sum(range(10 ** 11))
+
+
+def stop_self():
+    os.kill(os.getpid(), signal.SIGSTOP)
+    time.sleep(100000)
+
+
+def coop_loop(seconds=100000):
+    end = time.time() + seconds
+    while time.time() < end:
+        time.sleep(0.005)
+    return 'finished'
+
+
+def make_bytes(n):
+    return (bytes(range(251)) * (n // 251 + 1))[:n]
+
+
+def ret_value(v):
+    return v
+
+
+def raise_exc(kind, args):
+    if kind == 'ValueError':
+        raise ValueError(*args)
+    if kind == 'KeyError':
+        raise KeyError(*args)
+    if kind == 'Custom':
+        raise Custom(*args)
+    if kind == 'NeedsArgs':
+        raise NeedsArgs(1, 2)
+    if kind == 'Unpicklable':
+        e = Custom('unpicklable attr')
+        e.lock = threading.Lock()
+        raise e
+    if kind == 'KeyboardInterrupt':
+        raise KeyboardInterrupt()
+    if kind == 'SystemExit':
+        raise SystemExit(3)
+    raise RuntimeError('unknown kind')
